@@ -180,15 +180,19 @@ PROPS = {
     ),
     "C04": dict(
         level="proof",
-        modules=["Exmex.Props.C04"],
-        theorems=["Exmex.C04.findVars_sorted", "Exmex.C04.mem_findVars", "Exmex.C04.flat_eval_wrong_arity",
+        modules=["Exmex.Props.C04", "Exmex.Props.C10", "Exmex.Props.C01Parse"],
+        theorems=["Exmex.C10.resetVars_sound", "Exmex.C10.operateBin_sound", "Exmex.C01.findVars_toks", "Exmex.C04.findVars_sorted", "Exmex.C04.mem_findVars", "Exmex.C04.flat_eval_wrong_arity",
                   "Exmex.C04.flat_evalRelaxed_surplus", "Exmex.C04.deep_eval_wrong_arity", "Exmex.C04.braced_is_var"],
         rule="expressions with 0..40 variables (bare ASCII/Greek identifiers, braced arbitrary text incl. spaces, digits, emoji, operator look-alikes), every slice length 0..n+3 on eval / eval_relaxed / eval_vec / eval_iter, flat and deep; plus the flat generator for the variable list; non-trivial = at least 2 distinct variables; distinct by request hash",
         kinds=[dict(kind="vars", quick=6000, thorough=150000, corr=["vars", "dvars", "ar"],
                     oracle=[("vars", "svars"), ("dvars", "svars"), ("ar", "sar")], guards=["render", "toks"],
                     nontrivial=lambda req, A, B: A.get("vars", "").count(",") >= 1),
                dict(kind="flat", quick=8000, thorough=200000, corr=["vars"], oracle=[("vars", "svars")],
-                    guards=["render", "toks"], nontrivial=flat_nontrivial)],
+                    guards=["render", "toks"], nontrivial=flat_nontrivial),
+               # derived expressions (operator application, substitution, derivative): sorted union of the names
+               dict(kind="hist", quick=6000, thorough=150000, args=["diff"], corr=["pool", "steps"], oracle=[], nontrivial=lambda req, A, B: req.split("\t")[5].count("|") >= 1),
+               dict(kind="histf", quick=6000, thorough=150000, args=["diff"], no_model=True, corr=[], oracle_const=[("r", "ok")], nontrivial=lambda req, A, B: req.split("\t")[3].count("|") >= 1),
+               dict(kind="histf", quick=4000, thorough=100000, args=["default"], no_model=True, corr=[], oracle_const=[("r", "ok")], nontrivial=lambda req, A, B: req.split("\t")[3].count("|") >= 1)],
     ),
     "C10": dict(
         level="proof",
